@@ -23,6 +23,9 @@ def _find_bins():
     c5 = shutil.which('cvc5')
     if c5:
         bins['cvc5'] = c5
+    py = os.path.join(_HERE, '..', '.venv', 'bin', 'python')
+    if os.path.exists(py):
+        bins['cvc5-1.4'] = os.path.abspath(py)
     return bins
 
 
@@ -68,6 +71,34 @@ def solve_inproc(constraints, timeout_ms, want=None):
                 env[n] = val
         return 'sat', env, dt
     return 'unknown', None, dt
+
+
+def cvc5_inproc(constraints, timeout_ms):
+    """cvc5 (python wheel) on the SMT-LIB rendering of the constraints. Only the verdict is used (no model)."""
+    try:
+        import cvc5
+    except ImportError:
+        return 'unknown', 0.0
+    t = time.time()
+    try:
+        txt = to_smt2(constraints)
+        tm = cvc5.TermManager()
+        slv = cvc5.Solver(tm)
+        slv.setOption('tlimit-per', str(max(50, int(timeout_ms))))
+        slv.setLogic('ALL')
+        ip = cvc5.InputParser(slv)
+        ip.setStringInput(cvc5.InputLanguage.SMT_LIB_2_6, txt, 'q')
+        sm = ip.getSymbolManager()
+        while True:
+            c = ip.nextCommand()
+            if c.isNull():
+                break
+            c.invoke(slv, sm)
+        r = slv.checkSat()
+        st = 'unsat' if r.isUnsat() else ('sat' if r.isSat() else 'unknown')
+    except Exception:
+        st = 'unknown'
+    return st, time.time() - t
 
 
 def to_smt2(constraints, want=None):
@@ -172,6 +203,9 @@ def portfolio(smt_body, timeout_s, names=None, solvers=None, workdir=None):
         if name.startswith('z3'):
             head = '(set-option :pp.decimal true)\n(set-option :pp.decimal_precision 25)\n'
             cmd = [binp, f'-T:{int(timeout_s)}']
+        elif name == 'cvc5-1.4':
+            head = '(set-logic ALL)\n'
+            cmd = [binp, os.path.join(_HERE, 'cvc5cli.py'), str(int(timeout_s * 1000))]
         else:
             head = '(set-logic ALL)\n'
             cmd = [binp, f'--tlimit={int(timeout_s * 1000)}', '--produce-models']
